@@ -205,7 +205,7 @@ def make_transform(rng, kind, inp, d, N, K, T_):
         s0 = (inp["x"] or inp["xu"]).snapshots[0]
         return T("rotate", R=random_rotation(rng, d), c=s0.positions.mean(axis=0))
     if kind == "dilate":
-        return T("dilate", s=float(rng.choice([0.37, 2.0, 3.3, 10.0])))
+        return T("dilate", s=float(rng.choice([0.37, 2.0, 3.3, 10.0, 1e-9, 1e-10, 1e6])))   # R10: also a change of the unit of length (SI metres, fm)
     raise ValueError(kind)
 
 
